@@ -316,7 +316,7 @@ class TexNode(object):
         ' Nested\n    '
         """
         for descendant in self.contents:
-            if isinstance(descendant, (TexText, Token)):
+            if isinstance(descendant, str):
                 yield descendant
             elif hasattr(descendant, 'text'):
                 yield from descendant.text
@@ -802,8 +802,7 @@ class TexExpr(object):
         >>> expr
         TexExpr('textbf', ['hello', 'world'])
         """
-        self._assert_supports_contents()
-        self._contents.extend(exprs)
+        self.insert(len(self._contents), *exprs)
 
     def insert(self, i, *exprs):
         """Insert content at specified position into expression.
@@ -823,6 +822,11 @@ class TexExpr(object):
         """
         self._assert_supports_contents()
         for j, expr in enumerate(exprs):
+            # store expressions only: unwrap nodes and wrap plain strings
+            if isinstance(expr, TexNode):
+                expr = expr.expr
+            elif isinstance(expr, str) and not isinstance(expr, TexExpr):
+                expr = TexText(expr)
             if isinstance(expr, TexExpr):
                 expr.parent = self
             self._contents.insert(i + j, expr)
